@@ -76,7 +76,7 @@ func (V *Verifier) globalWriters() map[string][]string {
 }
 
 func (c *checkCtx) framesTask(prop string) {
-	V := c.V
+	_ = c.V
 	// run every codec function and every Encode / Decode; the symbolic execution records provenance
 	// obligations (C16) and every access to a package-level variable (C20)
 	c.codecTask(nil, []string{"safe"})
@@ -87,6 +87,16 @@ func (c *checkCtx) framesTask(prop string) {
 		c.notes = append(c.notes, "strings are immutable values: string(b) and []byte(s) copy; unsafe, reflect and cgo are outside the verified subset, so a zero-copy conversion fails a subset or uncontracted-call obligation")
 		return
 	}
+	c.globalsObligations(prop)
+	c.notes = append(c.notes, "race-freedom follows from frames (disjoint write sets, shared data read-only or lock-protected) by the Go memory model; no interleaving is enumerated")
+}
+
+// globalsObligations turns the record of accesses to package-level variables made by the symbolic executions of this
+// run into obligations: no write; reads only of variables that are written during initialisation only and hold no
+// reference to mutable memory other than the pinned discriminator tables; the checksum registry only through
+// codec.Get, and only from Encode methods (the frames).
+func (c *checkCtx) globalsObligations(prop string) {
+	V := c.V
 	writers := V.globalWriters()
 	var fns []string
 	for f := range V.globalAccess {
@@ -97,6 +107,9 @@ func (c *checkCtx) framesTask(prop string) {
 	for _, f := range fns {
 		if strings.Contains(f, ".init") {
 			continue // initialisation runs before any codec call
+		}
+		if f == "codec.Registry" || f == "codec.Get" || f == "codec.Remove" || f == "codec.Clear" {
+			continue // the registry operations themselves: their discipline is C19's specification (registryTask)
 		}
 		var gs []string
 		for g := range V.globalAccess[f] {
@@ -118,7 +131,18 @@ func (c *checkCtx) framesTask(prop string) {
 			why := "init-only"
 			if how["read-under-lock"] {
 				why = "checksum registry, read through codec.Get under its RWMutex (C19)"
+				if !strings.HasSuffix(f, ".Encode") && !strings.HasPrefix(f, "codec.Get") && !strings.HasPrefix(f, "codec.Registry") && !strings.HasPrefix(f, "codec.Remove") && !strings.HasPrefix(f, "codec.Clear") {
+					ok = false
+					why = "the checksum registry is consulted by a function other than a frame's Encode (its result would depend on what is registered at the moment)"
+				}
 			} else {
+				if gt := V.globalType(g); gt != nil && !V.isTableVar(g) {
+					switch gt.Underlying().(type) {
+					case *types.Slice, *types.Map, *types.Pointer, *types.Chan, *types.Signature, *types.Interface:
+						ok = false
+						why = "the variable refers to memory that every call shares (a " + gt.String() + " that is not a pinned discriminator table)"
+					}
+				}
 				for _, w := range writers[g] {
 					if !(strings.HasPrefix(w, "init") || (strings.HasPrefix(w, "Registry") && strings.HasSuffix(w, "Factory"))) {
 						ok = false
@@ -134,7 +158,29 @@ func (c *checkCtx) framesTask(prop string) {
 	if n == 0 {
 		c.obs = append(c.obs, &Obligation{Name: "frame/no-global-state-touched", Kind: "frame", Props: []string{prop}, Goal: True, Detail: "no codec function touches package-level state"})
 	}
-	c.notes = append(c.notes, "race-freedom follows from frames (disjoint write sets, shared data read-only or lock-protected) by the Go memory model; no interleaving is enumerated")
+}
+
+// globalType: the type of the package-level variable "pkgpath.Name".
+func (V *Verifier) globalType(g string) types.Type {
+	i := strings.LastIndexByte(g, '.')
+	if i < 0 {
+		return nil
+	}
+	if p := V.pkgs[g[:i]]; p != nil {
+		if gl, ok := p.Members[g[i+1:]].(*ssa.Global); ok {
+			return gl.Type().(*types.Pointer).Elem()
+		}
+	}
+	return nil
+}
+
+func (V *Verifier) isTableVar(g string) bool {
+	for _, ti := range V.tables {
+		if ti.Pkg+"."+ti.Var == g {
+			return true
+		}
+	}
+	return false
 }
 
 // ---------------------------------------------------------------- C19: the checksum registry
